@@ -184,11 +184,13 @@ def getFuncASTSrc (src : Bytes) (root : Node) (l : Nat) : Except Err (Option Nat
 /-! ### discharging the oracle of `AugmentGlue` -/
 
 /-- the `Parsed` of `AugmentGlue` for a tree: `funcAt` is the walk, composed
-with `types` (= `extractArgumentsType` of the declaration, `PP.TN`) -/
-def toParsed (offsets : List Nat) (root : Node) (types : Nat → List Bytes × Bool) : AugGlue.Parsed where
+with `types` (= `extractArgumentsType` of the declaration, `PP.TN`; `none` for
+a declaration whose receiver list is present and not of length one, which
+`augmentCall` leaves alone: the guard of fix F10) -/
+def toParsed (offsets : List Nat) (root : Node) (types : Nat → Option (List Bytes × Bool)) : AugGlue.Parsed where
   funcAt := fun _ l =>
     match getFuncAST offsets root l with
-    | .ok (some k) => some (types k)
+    | .ok (some k) => types k
     | _ => none
 
 end PP.FA
